@@ -15,6 +15,7 @@ def main():
     nv.build_lean()
     nv.build_codec('a')
     nv.build_util()
+    nv.build_single('life', 'life_main.cpp')
     try:
         import engines
         engines.build_all()
